@@ -82,8 +82,8 @@ def align_shape(*polys: PolyLike) -> Tuple[ndpoly, ...]:
     # return tuple(numpoly.broadcast_arrays(*polys))
     polys_ = [numpoly.aspolynomial(poly) for poly in polys]
     common = numpy.ones(
-        numpy.broadcast_shapes(*[poly.shape for poly in polys_]), dtype=int
-    )
+        numpy.broadcast_shapes(*[poly.shape for poly in polys_]), dtype=bool
+    )  # boolean ones: stretching keeps the dtype of the coefficients
 
     for idx, poly in enumerate(polys_):
         if poly.shape != common.shape:
